@@ -51,7 +51,7 @@ func (m c03) Run(ctx *core.Ctx) {
 			m.Exec(ctx, cs)
 		}
 	}
-	n := split(tierN(ctx.Tier, 1_000_000, 30_000_000), ctx.Shard, ctx.NShards)
+	n := split(tierN(ctx.Tier, 2_000_000, 30_000_000), ctx.Shard, ctx.NShards)
 	for i := int64(0); i < n; i++ {
 		in := gen.Input(r)
 		if r.IntN(4) == 0 {
@@ -62,7 +62,7 @@ func (m c03) Run(ctx *core.Ctx) {
 		ctx.Begin(cs)
 		m.Exec(ctx, cs)
 	}
-	n = split(tierN(ctx.Tier, 300_000, 25_000_000), ctx.Shard, ctx.NShards)
+	n = split(tierN(ctx.Tier, 800_000, 25_000_000), ctx.Shard, ctx.NShards)
 	for i := int64(0); i < n; i++ {
 		in, base, has := startCase(r)
 		cs := &core.Case{Check: "history", Input: core.S(in), Base: core.S(base), HasBase: has,
